@@ -453,17 +453,36 @@ class NP:
             return tuple(pyval(s) for s in shape)
         return (pyval(shape),)
 
+    def _apply_dtype(self, interp, line, t, dtype):
+        """dtype= of an array constructor: same conversion as astype (narrow integer types wrap, reduced-precision floats are refused)."""
+        if dtype is None:
+            return t
+        kind = dtype_kind(dtype)
+        if kind is None:
+            raise Unsupported(f'dtype={_dtype_name(dtype)}', line)
+        if kind == 'bool':
+            if as_tensor(t).dtype != 'bool':
+                raise Unsupported('dtype=bool on non-boolean values', line)
+            return t
+        return self.m_astype(interp, line, as_tensor(t), dtype)
+
     def f_zeros(self, interp, line, shape, dtype=None):
         dt = dtype_kind(dtype) or 'real'
+        if dtype is not None and (dtype_width(dtype) or 64) < 64 and dt == 'real':
+            raise Unsupported('reduced-precision float array', line)
         zero = 0 if dt == 'int' else 0.0
-        return STensor(self._shape_arg(shape), lambda *i: zero, dt)
+        out = STensor(self._shape_arg(shape), lambda *i: zero, dt if dt != 'bool' else 'bool')
+        if dt == 'int' and (dtype_width(dtype) or 64) < 64:
+            # later stores into a narrow integer array wrap: not modelled
+            raise Unsupported(f'zeros(dtype={_dtype_name(dtype)}): stores into narrow integer arrays are not modelled', line)
+        return out
 
     def f_ones(self, interp, line, shape, dtype=None):
-        return STensor(self._shape_arg(shape), lambda *i: 1.0, 'real')
+        return self._apply_dtype(interp, line, STensor(self._shape_arg(shape), lambda *i: 1.0, 'real'), dtype)
 
     def f_full(self, interp, line, shape, fill_value, dtype=None):
         fv = pyval(fill_value)
-        return STensor(self._shape_arg(shape), lambda *i: fv, V.scalar_dtype(fv))
+        return self._apply_dtype(interp, line, STensor(self._shape_arg(shape), lambda *i: fv, V.scalar_dtype(fv)), dtype)
 
     def f_ones_like(self, interp, line, a):
         a = as_tensor(a)
@@ -499,6 +518,15 @@ class NP:
         raise Unsupported('arange form')
 
     def f_array(self, interp, line, obj, dtype=None, **kw):
+        r = self._array(interp, line, obj, **kw)
+        if dtype is not None and not isinstance(r, np.ndarray):
+            return self._apply_dtype(interp, line, r, dtype)
+        if dtype is not None and isinstance(r, np.ndarray):
+            real = self.unit.real_object('numpy.' + _dtype_name(dtype)) if not isinstance(dtype, type) else dtype
+            return r.astype(real)
+        return r
+
+    def _array(self, interp, line, obj, **kw):
         from .values import SSeq
         if isinstance(obj, STensor):
             return STensor(obj.shape, obj.fn, obj.dtype)
